@@ -912,7 +912,7 @@ func (r *envelopingReader) prepareNext() error {
 			r.rw.reportError(err)
 			return err
 		}
-		r.current = io.LimitReader(r.r, int64(env.length))
+		r.current = &exactReader{r: r.r, remaining: int64(env.length)}
 	}
 
 	if r.rw.op.serverEnveloper == nil {
@@ -1838,6 +1838,29 @@ func (l *limitWriter) Write(data []byte) (n int, err error) {
 		return 0, err
 	}
 	return l.buf.Write(data)
+}
+
+// exactReader reads exactly the announced number of bytes of one message from
+// the underlying reader: unlike io.LimitReader it does not turn a body that
+// ends early into a clean end of the message.
+type exactReader struct {
+	r         io.Reader
+	remaining int64
+}
+
+func (e *exactReader) Read(data []byte) (n int, err error) {
+	if e.remaining <= 0 {
+		return 0, io.EOF
+	}
+	if int64(len(data)) > e.remaining {
+		data = data[:e.remaining]
+	}
+	n, err = e.r.Read(data)
+	e.remaining -= int64(n)
+	if e.remaining > 0 && errors.Is(err, io.EOF) {
+		err = io.ErrUnexpectedEOF
+	}
+	return n, err
 }
 
 type hardLimitReader struct {
